@@ -1,4 +1,341 @@
-/- C03 — property theorems (under construction). -/
-import Lmd.PeerLoop
+/-
+  C03 — delta updates converge to the backend and never tear an object.
+
+  9.  `tsBlocks_exact`, `tsBlocks_count`, `tsBlocks_separated`: the blocks `composeTimestampFilter` builds
+      cover exactly the given timestamps, are at most as many as the timestamps, and (for strictly
+      ascending input) are never adjacent.
+  10. `applyDelta_copies_current`, `row_after_cells`: what `prepareDataUpdateSet` + `insertDeltaDataResult`
+      write: same number of rows, rows that are not addressed are untouched, an addressed row gets the
+      coerced values of the reply (all dynamic columns for the full decision, the numeric ones else).
+  11. `no_tear_step`: on a backend without `last_update`, the numbers-only decision is only taken when
+      `last_check` and every int / int64 dynamic column of the reply equal the cached ones.
+  12. `delta_success_stamps`, `delta_window_used`, `delta_reply_window`, `windows_contiguous`: the window
+      of a delta run and the adjacency of the windows of consecutive successful runs;
+      `fullscan_detects`, `fullscan_refetches`: the periodic full scan.
+
+  A full `converges` theorem is not proved; the end of this file says what is missing.
+
+  Helper lemmas live in `Lmd.Lemmas.PeerLemmas`.
+-/
+import Lmd.Lemmas.PeerLemmas
+
 namespace Lmd.C03
+open Lmd Lmd.PeerL
+
+/-! ## 9. the timestamp filter -/
+
+/-- A timestamp satisfies the filter `composeTimestampFilter ts` (it lies in one of the blocks `lo ≤ t ≤ hi`) if
+    and only if it is one of `ts` — for lists of any length.  (This needs no order on `ts`; lmd passes a sorted list
+    without duplicates, for which the blocks are also minimal, see `tsBlocks_separated`.) -/
+theorem tsBlocks_exact (ts : List Int) (t : Int) :
+    (∃ blk ∈ tsBlocks ts, blk.1 ≤ t ∧ t ≤ blk.2) ↔ t ∈ ts := by
+  cases ts with
+  | nil => simp [tsBlocks]
+  | cons x xs =>
+    have := go_mem t xs x x (Int.le_refl x)
+    unfold inBlocks at this
+    unfold tsBlocks
+    rw [this, List.mem_cons]
+    constructor
+    · rintro (h | h)
+      · exact .inl (by omega)
+      · exact .inr h
+    · rintro (h | h)
+      · exact .inl ⟨by omega, by omega⟩
+      · exact .inr h
+
+example : (∃ blk ∈ tsBlocks [3, 4, 5, 9, 10, 20], blk.1 ≤ 4 ∧ 4 ≤ blk.2) ∧
+    tsBlocks [3, 4, 5, 9, 10, 20] = [(3, 5), (9, 10), (20, 20)] := by decide
+
+/-- The filter has at most as many blocks as there are timestamps. -/
+theorem tsBlocks_count (ts : List Int) : (tsBlocks ts).length ≤ ts.length := by
+  cases ts with
+  | nil => simp [tsBlocks]
+  | cons x xs =>
+    unfold tsBlocks
+    have := go_length xs x x
+    simp only [List.length_cons]; omega
+
+/-- For strictly ascending timestamps the blocks are well formed, in ascending order and no two of them touch
+    (`hi + 1 < lo'`): no shorter filter describes the same set. -/
+theorem tsBlocks_separated (ts : List Int) (h : ts.Pairwise (· < ·)) :
+    (tsBlocks ts).Pairwise (fun a b => a.2 + 1 < b.1) ∧ ∀ blk ∈ tsBlocks ts, blk.1 ≤ blk.2 := by
+  cases ts with
+  | nil => simp [tsBlocks]
+  | cons x xs =>
+    rw [List.pairwise_cons] at h
+    unfold tsBlocks
+    obtain ⟨h1, h2⟩ := go_separated xs x x (Int.le_refl x) h.1 h.2
+    exact ⟨h1, fun blk hb => (h2 blk hb).2⟩
+
+example : ([3, 4, 5, 9, 10, 20] : List Int).Pairwise (· < ·) := by decide
+
+/-! ## 10. what a delta reply writes -/
+
+/-- `prepareDataUpdateSet` + `insertDeltaDataResult`.  If a reply is accepted (`some rows`), then there is the list
+    `upd` of (row index, reply row) pairs — every reply row exactly once — such that
+    * the table keeps its number of rows;
+    * a row no pair addresses is unchanged;
+    * a row addressed by exactly one pair `(i, r)` is `rowAfter old r`: the cached row with the values of `r` copied
+      according to the decision (see `row_after_cells`);
+    * when the reply has as many rows as the table, rows are matched by position and every row is addressed exactly
+      once; otherwise every pair addresses a cached row that carries the reply row's primary key.
+    So every value a step writes into the cache is the backend's value in the reply of that step's fetch. -/
+theorem applyDelta_copies_current (w : World) (flags : Nat) (tab : Table) (cached : List Row) (reply : List ReplyRow)
+    (rows : List Row) (h : applyDelta w flags tab cached reply = some rows) :
+    ∃ upd : List (Nat × ReplyRow),
+      (upd.map (·.2)).Perm reply ∧
+      rows.length = cached.length ∧
+      (∀ j, (∀ x ∈ upd, x.1 ≠ j) → rows[j]? = cached[j]?) ∧
+      (∀ x ∈ upd, OnlyOnce upd x → ∀ old, cached[x.1]? = some old →
+        rows[x.1]? = some (rowAfter w flags tab old x.2)) ∧
+      (reply.length = cached.length → upd.map (·.1) = List.range cached.length ∧ ∀ x ∈ upd, OnlyOnce upd x) ∧
+      (reply.length ≠ cached.length → ∀ x ∈ upd, ∃ c, cached[x.1]? = some c ∧ c.key tab = replyKey tab x.2) := by
+  rw [applyDelta_eq] at h
+  cases ha : addressed tab cached reply with
+  | none => rw [ha] at h; cases h
+  | some upd =>
+    rw [ha] at h
+    simp only [Option.map_some, Option.some.injEq] at h
+    subst h
+    obtain ⟨s1, s2, s3⟩ := addressed_spec ha
+    refine ⟨upd, s1, foldl_deltaStep_length w flags tab upd cached,
+      fun j hj => foldl_deltaStep_other w flags tab j upd cached hj,
+      fun x _ hx old hold => foldl_deltaStep_once w flags tab upd cached x old hx hold,
+      fun hl => ⟨s2 hl, fun x hx => onlyOnce_of_nodup upd x (by rw [s2 hl]; exact List.nodup_range) hx⟩, s3⟩
+
+/-- a world whose hosts table has a key and two dynamic columns, one numeric and one string -/
+def exWorld : World :=
+  { cfg := {}, mainRestart := 100,
+    schema := { tables := [
+      { name := "hosts", primaryKey := ["name"],
+        cols := [{ name := "name", dtype := .str, storage := .loc, fetch := "Static" },
+                 { name := "state", dtype := .int, storage := .loc, fetch := "Dynamic" },
+                 { name := "plugin_output", dtype := .str, storage := .loc, fetch := "Dynamic" }] }] } }
+
+/-- the hosts table of `exWorld` -/
+def exHosts : Table := tableOf exWorld "hosts"
+
+example : (applyDelta exWorld 0 exHosts
+    [{ cells := [("name", .s "a"), ("state", .i 0), ("plugin_output", .s "ok")] }]
+    [[("name", Lean.Json.str "a"), ("state", Lean.Json.num 2), ("plugin_output", Lean.Json.str "down")]]).isSome = true := by
+  rw [applyDelta_eq]
+  simp only [addressed, sortedDelta, List.map_cons, List.map_nil, List.mergeSort_singleton]
+  decide
+
+/-- The cached row after a reply row `r` addressed it, cell by cell (column names of the table unique):
+    * skipped (`decision = none`): the row is unchanged;
+    * full (`some true`): every dynamic column the reply delivers holds `coerce` of the delivered value;
+    * numbers only (`some false`): every numeric dynamic column the reply delivers holds `coerce` of the delivered
+      value, every other dynamic column is unchanged;
+    * in every case a cell that is not a dynamic column, or that the reply does not deliver, is unchanged. -/
+theorem row_after_cells (w : World) (flags : Nat) (tab : Table) (old : Row) (r : ReplyRow)
+    (hnames : ((dynamicCols w.schema flags tab.name).map (·.name)).Nodup) :
+    (decision w flags tab old r = none → rowAfter w flags tab old r = old) ∧
+    (decision w flags tab old r = some true →
+      ∀ col ∈ dynamicCols w.schema flags tab.name, ∀ k j, r.find? (·.1 == col.name) = some (k, j) →
+        (rowAfter w flags tab old r).cell? col.name = some (coerce col.dtype j)) ∧
+    (decision w flags tab old r = some false →
+      ∀ col ∈ dynamicCols w.schema flags tab.name,
+        (isNumericCol col = true → ∀ k j, r.find? (·.1 == col.name) = some (k, j) →
+          (rowAfter w flags tab old r).cell? col.name = some (coerce col.dtype j)) ∧
+        (isNumericCol col = false → (rowAfter w flags tab old r).cell? col.name = old.cell? col.name)) ∧
+    (∀ n, (n ∉ (dynamicCols w.schema flags tab.name).map (·.name) ∨ r.find? (·.1 == n) = none) →
+      (rowAfter w flags tab old r).cell? n = old.cell? n) := by
+  refine ⟨fun hd => ?_, fun hd col hc k j hr => ?_, fun hd col hc => ⟨fun hnum k j hr => ?_, fun hnum => ?_⟩,
+    fun n hn => ?_⟩
+  · unfold rowAfter; rw [hd]
+  · unfold rowAfter; rw [hd]
+    exact updateRow_cell_written true r col k j _ old hnames hc rfl hr
+  · unfold rowAfter; rw [hd]
+    exact updateRow_cell_written false r col k j _ old hnames hc (by simp [hnum]) hr
+  · unfold rowAfter; rw [hd]
+    apply updateRow_cell_untouched
+    intro c' hc' hne
+    left
+    have : c' = col := nodup_name_eq hnames hc' hc hne
+    rw [this, hnum]; rfl
+  · unfold rowAfter
+    split
+    · rfl
+    · apply updateRow_cell_untouched
+      intro c' hc' hne
+      rcases hn with hn | hn
+      · exact absurd (by rw [← hne]; exact List.mem_map_of_mem hc') hn
+      · exact .inr hn
+
+example : ((dynamicCols exWorld.schema 0 exHosts.name).map (·.name)).Nodup ∧
+    (dynamicCols exWorld.schema 0 exHosts.name).length = 2 := by decide
+
+/-! ## 11. no torn rows from the numbers-only update -/
+
+/-- On a backend without `last_update` (for a table that stores `last_check`) an addressed row gets either the full
+    update — every delivered dynamic column, strings included, is copied — or the numbers-only update, and the
+    latter only when `last_check` and every int / int64 dynamic column of the reply already equal the cached values.
+    So a reply in which a number changed without a new check result (acknowledgement, downtime depth, modified
+    attributes, …) is copied as a whole: the row never mixes the new numbers with the old strings. -/
+theorem no_tear_step (w : World) (flags : Nat) (tab : Table) (old : Row) (r : ReplyRow)
+    (hLU : hasLU w flags tab = false) (hLC : hasLC tab = true) :
+    rowAfter w flags tab old r = updateRow (dynamicCols w.schema flags tab.name) true old r ∨
+    (rowAfter w flags tab old r = updateRow (dynamicCols w.schema flags tab.name) false old r ∧
+      replyInt r "last_check" = old.int "last_check" ∧
+      ∀ col ∈ dynamicCols w.schema flags tab.name,
+        (col.dtype = .int → checkInt8 (replyInt r col.name) = old.int col.name) ∧
+        (col.dtype = .int64 → replyInt r col.name = old.int col.name)) := by
+  have hd := decision_noLU (w := w) (flags := flags) (tab := tab) old r hLU hLC
+  unfold rowAfter
+  rw [hd]
+  simp only []
+  cases hb : (replyInt r "last_check" != old.int "last_check" ||
+      intChanged (dynamicCols w.schema flags tab.name) old r) with
+  | true => exact .inl rfl
+  | false =>
+    rw [Bool.or_eq_false_iff] at hb
+    exact .inr ⟨rfl, by simpa using hb.1, intChanged_false hb.2⟩
+
+/-- a world whose hosts table stores `last_check`, on a backend without `last_update` -/
+def exWorld2 : World :=
+  { cfg := {}, mainRestart := 100,
+    schema := { tables := [
+      { name := "hosts", primaryKey := ["name"],
+        cols := [{ name := "name", dtype := .str, storage := .loc, fetch := "Static" },
+                 { name := "last_check", dtype := .int64, storage := .loc, fetch := "Dynamic" },
+                 { name := "acknowledged", dtype := .int, storage := .loc, fetch := "Dynamic" },
+                 { name := "plugin_output", dtype := .str, storage := .loc, fetch := "Dynamic" }] }] } }
+
+example : hasLU exWorld2 0 (tableOf exWorld2 "hosts") = false ∧ hasLC (tableOf exWorld2 "hosts") = true := by decide
+
+/-- the repaired case: an acknowledgement without a new check result (same `last_check`) gets the full update -/
+example : decision exWorld2 0 (tableOf exWorld2 "hosts")
+    { cells := [("name", .s "a"), ("last_check", .i 50), ("acknowledged", .i 0), ("plugin_output", .s "x")] }
+    [("name", Lean.Json.str "a"), ("last_check", Lean.Json.num 50), ("acknowledged", Lean.Json.num 1),
+     ("plugin_output", Lean.Json.str "x")] = some true := by decide
+
+/-! ## 12. windows and the full scan -/
+
+/-- the time window of a delta run from `fromT` at `now`: `[fromT - UpdateOffset, now - UpdateOffset)` -/
+def deltaWindow (w : World) (fromT now : Int) : Int × Int := (fromT - w.cfg.updateOffset, now - w.cfg.updateOffset)
+
+/-- A successful `UpdateDelta` sets the update time to `now` (and the peer `Up`, seen now). -/
+theorem delta_success_stamps (w : World) (now : Int) (p : PeerSt) (b : BackendSt) (c : Cache) (fromT : Int)
+    (h : (updateDelta w now p b c fromT).err = .none) :
+    (updateDelta w now p b c fromT).p.lastUpdate = now ∧ (updateDelta w now p b c fromT).p.lastOnline = now ∧
+      (updateDelta w now p b c fromT).p.status = .up := by
+  obtain ⟨a, _, c1, _, e, _⟩ := updateDelta_ok h
+  exact ⟨e, c1, a⟩
+
+example : (updateDelta exWorld0 130 { exPeer0 with lastUpdate := 130 } exBackend0 [] 120).err = .none := exDelta_ok
+
+/-- `UpdateDelta(from, now)` with `from > 0` asks for hosts and for services with the window
+    `[from - offset, now - offset)` and scan threshold `from - offset` (`winStep` is the hosts / services step of
+    `updateDelta`, see `updateDelta_eq`). -/
+theorem delta_window_used (w : World) (now fromT : Int) (p : PeerSt) (b : BackendSt) (c : Cache) (t : String)
+    (h : fromT > 0) :
+    winStep w now fromT p b c t =
+      deltaTable w now p b c t (some (deltaWindow w fromT now)) (deltaWindow w fromT now).1 := by
+  unfold winStep deltaWindow
+  rw [if_pos h, if_pos h]
+
+example : (120 : Int) > 0 := by decide
+
+/-- What a window request returns: exactly the backend's objects whose time stamp lies in `[lo, hi)`, or that are
+    being checked right now (when asked for), or whose `last_check` is one of the extra values of the full scan. -/
+theorem delta_reply_window (rows : List ReplyRow) (tsCol : String) (lo hi : Int) (executing : Bool)
+    (extra : List Int) (r : ReplyRow) :
+    r ∈ deltaReply rows tsCol (some (lo, hi)) executing extra ↔
+      r ∈ rows ∧ ((lo ≤ replyInt r tsCol ∧ replyInt r tsCol < hi) ∨
+        (executing = true ∧ replyInt r "is_executing" = 1) ∨ replyInt r "last_check" ∈ extra) :=
+  deltaReply_mem rows tsCol lo hi executing extra r
+
+/-- the conditions under which a loop pass is a plain delta run: awake, `Up` with data `c`, the minute of the last
+    timeperiod refresh, the next run due, no periodic full update pending, no forced full fetch -/
+def DeltaPass (w : World) (now : Int) (p : PeerSt) (c : Cache) : Prop :=
+  p.cache = some c ∧ p.status = .up ∧ idlesAt w now p = false ∧ p.lastTpMinute = (now / 60) % 60 ∧
+    ¬ now < p.lastUpdate + w.cfg.updateInterval ∧
+    ¬ (w.cfg.fullUpdateInterval > 0 ∧ now > p.lastFullUpdate + w.cfg.fullUpdateInterval) ∧ p.forceFull = false
+
+/-- Driven by the update loop, consecutive successful delta runs use adjacent windows: a delta pass at `now1` runs
+    `UpdateDelta` from the previous update time; if it succeeds, the update time is `now1`, and a following delta
+    pass at `now2` runs `UpdateDelta` from `now1` — its window starts where the previous one ended. -/
+theorem windows_contiguous (w : World) (now1 now2 : Int) (p : PeerSt) (b1 b2 : BackendSt) (c c' : Cache)
+    (h1 : DeltaPass w now1 p c)
+    (hok : (updateDelta w now1 { p with lastUpdate := now1 } b1 c p.lastUpdate).err = .none)
+    (h2 : DeltaPass w now2 (tick w now1 p b1).p c') :
+    tick w now1 p b1 = deltaRun w now1 { p with lastUpdate := now1 } b1 c p.lastUpdate ∧
+    (tick w now1 p b1).p.lastUpdate = now1 ∧
+    tick w now2 (tick w now1 p b1).p b2 =
+      deltaRun w now2 { (tick w now1 p b1).p with lastUpdate := now2 } b2 c' now1 ∧
+    (deltaWindow w now1 now2).1 = (deltaWindow w p.lastUpdate now1).2 := by
+  obtain ⟨a1, a2, a3, a4, a5, a6, a7⟩ := h1
+  have e1 := tick_delta w now1 p b1 c a1 a2 a3 a4 a5 a6 a7
+  have hl : (tick w now1 p b1).p.lastUpdate = now1 := by
+    rw [e1]; exact (deltaRun_of_ok hok).2.2
+  obtain ⟨b1', b2', b3, b4, b5, b6, b7⟩ := h2
+  have e2 := tick_delta w now2 (tick w now1 p b1).p b2 c' b1' b2' b3 b4 b5 b6 b7
+  rw [hl] at e2
+  exact ⟨e1, hl, e2, rfl⟩
+
+/-- non-vacuity: the pass at 130 over `exPeer0` (awake, `Up`, last updated at 120) against `exBackend0` is a delta
+    pass that succeeds, and the pass at 140 over the resulting peer is a delta pass again -/
+example : ∃ c', DeltaPass exWorld0 130 exPeer0 [] ∧
+    (updateDelta exWorld0 130 { exPeer0 with lastUpdate := 130 } exBackend0 [] exPeer0.lastUpdate).err = .none ∧
+    DeltaPass exWorld0 140 (tick exWorld0 130 exPeer0 exBackend0).p c' := by
+  obtain ⟨a1, a2, a3, a4, a5, a6, a7, ⟨c', b1⟩, b2, b3, b4, b5, b7⟩ := exTick_fields
+  exact ⟨c', ⟨a1, a2, a3, a4, a5, a6, a7⟩, exDelta_ok, ⟨b1, b2, b3, b4, b5, by decide, b7⟩⟩
+
+/-- the scripted backend of the scan example: one host -/
+def exBackend : BackendSt :=
+  { tables := [("status", [[("program_start", Lean.Json.num 5), ("nagios_pid", Lean.Json.num 7)]]),
+               ("hosts", [[("name", Lean.Json.str "a"), ("state", Lean.Json.num 0), ("plugin_output", Lean.Json.str "ok")]])],
+    cols := [] }
+
+/-- The full scan detects: when the scan of a hosts / services step is due and answered (with no more objects than
+    cached), the step asks — besides the window — for the `last_check` values `scanMissing` lists, and a value `v` is
+    listed exactly when some object, paired by position with its cached row, has `last_check = v` before the window
+    (`v < threshold`) and differs from the cached row in one of the scan columns (`last_check`, downtime depth,
+    acknowledged, active checks / notifications enabled, modified attributes, …). -/
+theorem fullscan_detects (w : World) (now : Int) (p : PeerSt) (b : BackendSt) (c : Cache) (t : String)
+    (window : Option (Int × Int)) (threshold : Int)
+    (hdue : ¬ lastFullOf p t > now - 60) (hq : (query w now p b).2.2 = none)
+    (hlen : ¬ (c.get t).length < (b.rows t).length) :
+    (deltaTable w now p b c t window threshold =
+      let q := query w now p b
+      let missing := scanMissing w t p.flags q.1.flags threshold (b.rows t) (c.get t)
+      if missing.isEmpty then plainStep w now c t window p.flags q.1 q.2.1 [] false
+      else plainStep w now c t window p.flags q.1 q.2.1 (if tsFilterLen missing > 150 then missing.take 149 else missing) true) ∧
+    ∀ v, v ∈ scanMissing w t p.flags (query w now p b).1.flags threshold (b.rows t) (c.get t) ↔
+      ∃ x ∈ (sortedReply w t (b.rows t)).zip (c.get t), replyInt x.1 "last_check" = v ∧ v < threshold ∧
+        scanChanged (tableOf w t)
+          (scanColumns (tsColumn w p.flags == "last_check")
+            (((query w now p b).1.flags &&& flagBit w.schema "HasLastUpdateColumn") != 0)) x.2 x.1 = true :=
+  ⟨deltaTable_scan w now p b c t window threshold hdue hq hlen, fun _ => scanMissing_mem ..⟩
+
+example : ¬ lastFullOf ({ lastFullHostUpdate := 10 } : PeerSt) "hosts" > (100 : Int) - 60 ∧
+    (query exWorld 100 { lastFullHostUpdate := 10 } exBackend).2.2 = none ∧
+    ¬ (Cache.get [("hosts", [{ cells := [] }])] "hosts").length < (exBackend.rows "hosts").length := by decide
+
+/-- The full scan refetches: every backend object whose `last_check` is one of the extra values is part of the
+    reply of the request, whatever its time stamp. -/
+theorem fullscan_refetches (rows : List ReplyRow) (tsCol : String) (lo hi : Int) (executing : Bool)
+    (extra : List Int) (r : ReplyRow) (hr : r ∈ rows) (hx : replyInt r "last_check" ∈ extra) :
+    r ∈ deltaReply rows tsCol (some (lo, hi)) executing extra :=
+  (deltaReply_mem rows tsCol lo hi executing extra r).2 ⟨hr, .inr (.inr hx)⟩
+
+/-! ## convergence — what is missing
+
+  `converges` (backend unchanged during two consecutive successful delta runs whose full scan is due ⇒ the
+  table equals the backend's) is not proved.  The pieces above give, for one run: which objects are detected
+  (`fullscan_detects`), that they are refetched (`fullscan_refetches`), and that a refetched object that is
+  addressed once and gets the full decision holds the backend's values (`applyDelta_copies_current`,
+  `row_after_cells`).  Missing for the composition:
+  * the positional pairing of the scan (`scan.zip cached`) and of a same-size reply pairs an object with *its*
+    cached row only if the cache is sorted by the same key order as the reply and keys are unique — an invariant
+    of the table set that `syncTable` establishes and every step would have to be shown to preserve;
+  * with `last_update` support a detected object is skipped by `decision` when neither `last_update` nor
+    `last_check` changed, so convergence needs the backend contract "every change bumps `last_update`";
+  * the scan columns must be dynamic int / int64 columns of the schema for `intChanged` to see what
+    `scanChanged` saw;
+  * the 149-block cap turns convergence into a progress statement over several runs.
+-/
+
 end Lmd.C03
